@@ -248,13 +248,15 @@ def _child(d, argv, sim, out_fd):
         bf.pysam = _ModProxy(pysam, faults, 'pysam', wrap_writer=True)
         bf.os = _ModProxy(os, faults, 'os')
         tm.pysam = _ModProxy(pysam, faults, 'pysam')
-        tm.shutil = _ModProxy(tm.shutil, faults, 'shutil')
-        real_move = bf.move
+        if hasattr(tm, 'shutil'):
+            tm.shutil = _ModProxy(tm.shutil, faults, 'shutil')
+        if hasattr(bf, 'move'):
+            real_move = bf.move
 
-        def move(*a, **k):
-            faults.hit('move')
-            return real_move(*a, **k)
-        bf.move = move
+            def move(*a, **k):
+                faults.hit('move')
+                return real_move(*a, **k)
+            bf.move = move
     crossings = []
 
     def flush_result():
